@@ -2,5 +2,5 @@
 # Regression over every seeded change: runs the quick check of the seed's property against a scratch worktree with the
 # patch applied (3 at a time) and prints the number of VIOLATION lines (0 = missed).
 cd /verif
-prop_of() { case "$1" in W1a) echo C01;; W2a) echo C11;; C02c) echo C07;; G1a) echo C01;; G2a) echo C09;; G3a) echo C14;; G4a) echo C20;; G5a|G6a) echo C02;; *) echo "$1" | cut -c1-3;; esac; }
+prop_of() { case "$1" in W1a) echo C01;; W2a) echo C11;; C02c) echo C07;; G1a) echo C01;; G2a) echo C09;; G3a) echo C14;; G4a) echo C20;; G5a|G6a) echo C02;; C04j) echo C03;; *) echo "$1" | cut -c1-3;; esac; }
 for s in $(ls seeded); do echo "$s $(prop_of $s)"; done | xargs -P 3 -L 1 sh -c 'out=$(TAIL=4000 tools/try_seed.sh $0 $1 2>&1); v=$(printf "%s\n" "$out" | grep -c "^VIOLATION"); m=$(printf "%s\n" "$out" | grep -c "MACHINERY-FAILURE"); echo "$0 $1 violation_lines=$v machinery=$m"'
